@@ -278,3 +278,62 @@ void vf_harness(void) {
     functions=['String::count'],
 )
 UNITS += [enum_deref, enum_value, count, count_value]
+
+# ---------------------------------------------------------------------------------------------
+# case mapping: one iteration of the loop of toUpperCase / toLowerCase, on top of the contract of the iteration step
+def case_step(name, nth, table, upper):
+    return Unit(
+        name, 'C08',
+        cuts=[Cut('tbl', UD, r'^char %s\[\]=""' % table, kind='stmt'), CONV_CUTS()[0],
+              Cut('body', S, r'^\tfor \(Enumerator e = all\(\); e; \+\+e\)\s*$', nth=nth, count=2, rules=[(r'int\s+code = \*e;', 'int code = g_code;', 1)])],
+        text=PRE + r'''
+@@tbl@@
+int utf32toUtf8(const int* p, char* u, int n) @@utf32toUtf8@@
+int nondet_int(void);
+void vf_harness(void) {
+  /* (code, n) as delivered by String::Enumerator::operator* - its contract, proved by unit Enumerator_deref in the same run */
+  int g_code = nondet_int(), n = nondet_int();
+  __CPROVER_assume(0 <= g_code && g_code <= 0x1FFFFF && 1 <= n && n <= 4 && (g_code >= 0x80 ==> n >= 2) && (g_code >= 0x800 ==> n >= 3) && (g_code >= 0x10000 ==> n == 4));
+  char out[8]; char* p = out; int u[2] = { 0, 0 };
+  @@body@@
+  __CPROVER_assert(p - out >= 1 && p - out <= n, "case mapping of one code point never produces more bytes than the code point occupied in the input");
+  __CPROVER_assert(g_code >= 128 || (p - out == 1 && out[0] == (char)(%s)), "on ASCII the mapping is that of the C locale");
+  VF_CANARY();
+}
+''' % ("(g_code >= 'a' && g_code <= 'z') ? g_code - 32 : g_code" if upper else "(g_code >= 'A' && g_code <= 'Z') ? g_code + 32 : g_code"),
+        entry=None, unwind=4, floor=5, expect=['assertion'],
+        desc='%s, one code point: table index inside the table for every code below the cut-over, output never longer than the input bytes consumed, ASCII = C locale' % ('toUpperCase' if upper else 'toLowerCase'),
+        functions=['String::%s (loop body)' % ('toUpperCase' if upper else 'toLowerCase'), table],
+    )
+upper_step = case_step('toUpperCase_step', 0, 'toUppercaseU8', True)
+lower_step = case_step('toLowerCase_step', 1, 'toLowercaseU8', False)
+UNITS += [upper_step, lower_step]
+
+# equalsNocase: the per-code-point comparison coincides with equality of the lower-cased bytes
+nocase_pair = Unit(
+    'equalsNocase_pair', 'C08',
+    cuts=[Cut('tbl', UD, r'^char toLowercaseU8\[\]=""', kind='stmt'), CONV_CUTS()[0],
+          Cut('lbody', S, r'^\tfor \(Enumerator e = all\(\); e; \+\+e\)\s*$', nth=1, count=2, rules=[(r'int\s+code = \*e;', 'int code = g_code;', 1)]),
+          Cut('cmp', S, r'^\tfor \(; e1 && e2; \+\+e1, \+\+e2\)\s*$', rules=[(r'int code1 = \*e1, code2 = \*e2;', 'int code1 = g_c1, code2 = g_c2;', 1), (r'return false;', '{ g_differ = 1; goto vf_done; }', None)])],
+    text=PRE + r'''
+@@tbl@@
+int utf32toUtf8(const int* p, char* u, int n) @@utf32toUtf8@@
+int nondet_int(void);
+/* the bytes toLowerCase produces for one code point (its extracted loop body) */
+static int lower_bytes(int g_code, char* out) { char* p = out; int u[2] = { 0, 0 }; @@lbody@@ return (int)(p - out); }
+void vf_harness(void) {
+  int g_c1 = nondet_int(), g_c2 = nondet_int(), g_differ = 0;
+  __CPROVER_assume(1 <= g_c1 && g_c1 <= 0x1FFFFF && 1 <= g_c2 && g_c2 <= 0x1FFFFF);
+  @@cmp@@
+  vf_done: ;
+  char a[8], b[8]; int na = lower_bytes(g_c1, a), nb = lower_bytes(g_c2, b);
+  int same = na == nb && a[0] == b[0] && (na < 2 || a[1] == b[1]) && (na < 3 || a[2] == b[2]) && (na < 4 || a[3] == b[3]);
+  __CPROVER_assert((g_differ == 0) == (same != 0), "two code points compare equal ignoring case exactly when their lower-cased forms are the same bytes");
+  VF_CANARY();
+}
+''',
+    entry=None, unwind=4, floor=5, expect=['assertion'],
+    desc='equalsNocase, one pair of code points (all pairs up to 0x1FFFFF): the comparison made equals equality of the two lower-cased byte sequences, including the 1415 cut-over asymmetry between the comparison and the mapper',
+    functions=['String::equalsNocase (loop body)', 'String::toLowerCase (loop body)', 'toLowercaseU8'],
+)
+UNITS += [nocase_pair]
